@@ -323,8 +323,12 @@ def run_entry(entry, n, seed, acc, tier):
         ch = docgen.HypChooser(draw)
         ctrl = ch.chance(.15)
         dl = ('\x1c', '\x1d', '\x1e', '\x1f') if ctrl else ('~', '*', ':', '^')
-        res = genfaulty.build(entry, ch, acc, max_faults=2, avoid='~*:^', envelope=.15, malformed=.1,
-                              shapes=[(1, 1, 1), (1, 1, 2), (1, 2, 1), (2, 1, 1)])
+        if ch.chance(.1):
+            # groups of different maps in one interchange (the validator changes maps on the way), then mutated like the others
+            res = genfaulty.build_mixed(ch, acc, max_faults=2, avoid='~*:^', envelope=.15, malformed=.1)
+        else:
+            res = genfaulty.build(entry, ch, acc, max_faults=2, avoid='~*:^', envelope=.15, malformed=.1,
+                                  shapes=[(1, 1, 1), (1, 1, 2), (1, 2, 1), (2, 1, 1)])
         if res is None:
             return {'skip': 'genfail'}
         doc, exps = res
